@@ -46,6 +46,21 @@ def cases(rng, tier):
     for two in ("cz", "cy", "ch"):
         yield _dest_used_case(rng, two)
     for k in range(2):
+        # three or more consecutive resets in the middle of a wire: the user resets the parked qubit between moving out and moving back in
+        # (k = 0), or a used qubit serves as a relay (k = 1)
+        if k == 0:
+            instrs = [gen.rand_1q(rng, 0), {"name": "ry", "qubits": [1], "params": [0.8]}, {"name": "cx", "qubits": [0, 1]},
+                      {"name": "move", "qubits": [1, 2]}, {"name": "reset", "qubits": [1]}, {"name": "move", "qubits": [2, 1]},
+                      {"name": "ry", "qubits": [1], "params": [0.5]}, {"name": "cx", "qubits": [0, 1]}]
+            nq_, obs_ = 3, [{"l": "ZZI", "p": 0}, {"l": "XYI", "p": 0}, {"l": "IZI", "p": 0}]
+        else:
+            instrs = [{"name": "ry", "qubits": [1], "params": [0.8]}, {"name": "cx", "qubits": [0, 1]}, {"name": "move", "qubits": [1, 2]},
+                      {"name": "rx", "qubits": [2], "params": [0.4]}, {"name": "move", "qubits": [2, 1]}, {"name": "move", "qubits": [1, 3]},
+                      {"name": "ry", "qubits": [1], "params": [0.3]}, {"name": "cx", "qubits": [0, 1]}]
+            nq_, obs_ = 4, [{"l": "ZZIZ", "p": 0}, {"l": "XIIY", "p": 0}, {"l": "IZII", "p": 0}]
+        yield ("workflow", {"kind": "reuse_chain", "nq": nq_, "qregs": [nq_], "instrs": instrs, "obs": obs_, "auto": True, "N": None,
+                            "seed": rng.randrange(1 << 30), "single": k == 1})
+    for k in range(2):
         # a Move onto a used wire is the last thing on that wire and the observables act on it: its reset stays in front of the measurement
         instrs = [{"name": "ry", "qubits": [1], "params": [rng.choice([0.9, 2.2])]}, gen.rand_1q(rng, 0), {"name": "h", "qubits": [0]},
                   {"name": "ry", "qubits": [0], "params": [0.6]}, {"name": "move", "qubits": [0, 1]}]
